@@ -72,6 +72,7 @@ class SimSlave:
         self.events = []                     # [ms, type, params]         (everything the device emitted)
         self.refused = 0
         self.push_hook = None                # push mode: called with every emitted event (webhooks)
+        self.expire_hook = None              # called with (session id, number of undelivered events) when a session expires
         self.delivered = []                  # [ms, kind, payload]  every answer that reached the master, in arrival order
         self.inflight = 0                    # requests being processed / answers in transit (idle listen calls excluded)
         self.polls_since_change = 0          # GET /ports answers delivered since the device last changed
@@ -133,6 +134,8 @@ class SimSlave:
                 self._respond(s)
             elif not active and now - s.accessed > max(s.timeout, self.session_floor) * SESSION_EXPIRY_FACTOR:
                 self.sessions.pop(sid)
+                if self.expire_hook is not None:
+                    self.expire_hook(sid, len(s.queue))      # events still queued for that listener are lost
 
     def _respond(self, s):
         evs, s.queue = s.queue, []
